@@ -1075,9 +1075,10 @@ SCOPE = ("partial: proved in full - monotone square roots (least upper root, mon
          "digit), Compare*/BinarySearch/BinarySearchBigDec for every searched function (tolerance met on the requested side, in range, "
          "non-convergence only after maxIterations failed probes), Exp2 (relative 1e-19 on the whole domain 0..512, domain failures), LogBase2 "
          "(3.3e-33 for every representable positive argument) and Ln/TickLog/CustomBaseLog (that error scaled by the base change), all domain "
-         "failures, and in-domain totality of Exp2 and LogBase2 (no range panic inside the domain).  NOT proved: an error bound for "
-         "Pow/PowApprox on 0.5 <= base < 2 (only domain failures, termination of the series loop, the integer-exponent case; that range is "
-         "covered by the oracle and the bit-exact correspondence), accuracy of the ApproxSqrt shortcut for exponent 1/2.  Refuted with witnesses: the "
+         "failures, in-domain totality of Exp2 and LogBase2 (no range panic inside the domain), and Pow/PowApprox on 1/2 <= base < 2: "
+         "|PowApprox - base^exp| <= precision + 1e-12 for every exponent in [0,1) incl. the ApproxSqrt shortcut (within 5 ulp of sqrt), lifted to Pow "
+         "for integer parts <= 2^28 (product form beyond), with the binomial series identity proved.  NOT proved: the exact documented 1e-8 without the "
+         "1e-12 rounding allowance, and which bases close to 2 hit the iteration limit (a loud failure).  Refuted with witnesses: the "
          "documented Pow precision for base < 0.5 (finding F4) and 'fails loudly' for Pow exponents <= -1 (finding F9).")
 EXPLANATION = ("Gallina model of osmomath's exp2/log/pow/sqrt/sigfig/binary-search code on raw mantissas (C13/*.v over Base/DecModel.v), with every "
                "panic/error as an explicit error value.  Integer-only theorems are axiom-free; error bounds against exp/ln use the standard "
@@ -1113,9 +1114,11 @@ TECHNIQUE = ("Coq proof over a Gallina model of osmomath's approximation functio
 LEVEL_TEXT = ("Machine-checked theorems (Coq 8.16.1) over a hand-written model: square roots, SigFigRound, tolerance comparison and both binary "
               "searches (for every searched function) are proved in full and axiom-free; Exp2 (relative 1e-19) and LogBase2/Ln/TickLog/CustomBaseLog "
               "(3.3e-33 scaled by the base change) are proved for all inputs of their domains over the standard-library reals with Coq-Interval; "
-              "Pow's documented precision is refuted for base < 0.5 and its fail-loudly claim for exponents <= -1 (known findings F4, F9), and no "
-              "bound is proved for Pow on 0.5 <= base < 2 (covered by the oracle only).  The model is checked bit-exact against the real code on "
+              "Pow's documented precision is refuted for base < 0.5 and its fail-loudly claim for exponents <= -1 (known findings F4, F9); for "
+              "1/2 <= base < 2 the bound |PowApprox - base^exp| <= precision + 1e-12 (all exponents in [0,1) incl. the ApproxSqrt shortcut) and its "
+              "lift to Pow (integer part <= 2^28, product form beyond) are proved over the reals with the binomial series identity discharged "
+              "(C13_pow_approx_bound, C13_pow_bound, C13_pow_parts_bound).  The model is checked bit-exact against the real code on "
               "every run, and an independent big-integer oracle evaluates the property's bounds on the implementation's outputs.")
 LEVEL_NOTE = ("Trusted: Coq kernel (vm_compute; no native_compute); real-number axioms of the standard library and the primitive-integer axioms used "
               "by Coq-Interval (listed verbatim in trusted_base); hand-written model C13/*.v and Base/DecModel.v; translator regexes; Go driver "
-              "harness/c13drv; python generator/oracle/reference.  The Pow error bound on [0.5,2) is not proved (oracle only).")
+              "harness/c13drv; python generator/oracle/reference.  The Pow bound on [1/2,2) is proved with a 1e-12 rounding allowance on top of the documented 1e-8; totality of Pow near base 2 (iteration limit) is a loud failure, not claimed.")
